@@ -164,15 +164,27 @@ def case_to_coq(c):
         coq_list([rspan(r) for r in (c["read"] or [])]))
 
 
-HEADER = ("From Coq Require Import List ZArith NArith Bool String Ascii.\nFrom Qryn Require Import model.Spans.\n"
+HEADER = ("From Coq Require Import List ZArith NArith Bool String Ascii.\nFrom Qryn Require Import model.Spans model.SpansChunk.\n"
           "Import ListNotations.\nOpen Scope string_scope.\nOpen Scope Z_scope.\n")
 
 
+def flushed_error(c):
+    """the request ended with an error AFTER a mid-request flush: rows exist although it was refused.  Such a case is judged by the
+    chunked model only (chunk_matches compares the error flag, the flushed trace rows and, per response, the tag rows)."""
+    return bool(c["err"] and c["spans"])
+
+
 def cases_file(cases):
+    """c<id> : case for every request; [cases] = those compared with the unchunked model (all but flushed_error ones);
+    [ccases] = every request with the parser's responses (trace rows, tag rows per response) and the Zipkin text lengths"""
     global IN
     IN = Interner()
-    body = ";\n  ".join(case_to_coq(c) for c in cases)
-    return HEADER + "\n".join(IN.defs) + "\nDefinition cases : list case := [\n  " + body + "].\n"
+    one = ["Definition c%d : case := %s." % (c["id"], case_to_coq(c)) for c in cases]
+    lst = "Definition cases : list case := %s.\n" % coq_list(["c%d" % c["id"] for c in cases if not flushed_error(c)])
+    cc = "Definition ccases : list ccase := %s.\n" % coq_list(
+        ["(Build_ccase c%d %s %s)" % (c["id"], coq_list([Z(n) for n in c.get("text_lens") or []]),
+                                      coq_list(["(%d, %d)" % (a, b) for a, b in c.get("resp") or []])) for c in cases])
+    return HEADER + "\n".join(IN.defs) + "\n" + "\n".join(one) + "\n" + lst + cc
 
 
 def ids(s):
@@ -183,14 +195,16 @@ def eval_text(ck, name, cases_txt):
     txt = (cases_txt +
            "Definition M := Eval vm_compute in mismatches cases.\nPrint M.\n"
            "Definition V := Eval vm_compute in spec_violations cases.\nPrint V.\n"
-           "Definition R := Eval vm_compute in regressions cases.\nPrint R.\n")
+           "Definition R := Eval vm_compute in regressions cases.\nPrint R.\n"
+           "Definition CM := Eval vm_compute in chunk_mismatches (fun c => psz_texts (cc_lens c)) (filter (fun c => in_ordered (c_in (cc_case c))) ccases).\nPrint CM.\n"
+           "Definition CV := Eval vm_compute in chunk_spec_violations ccases.\nPrint CV.\n")
     rc, out = ck.coq_eval(name, txt)
     if rc != 0:
         return None, out
     flat = " ".join(out.split())
     res = {}
-    for nm in ("M", "V"):
-        m = re.search(nm + r" = \[(.*?)\]\s*: list Z", flat)
+    for nm in ("M", "V", "CM", "CV"):
+        m = re.search(r"(?<![A-Z])" + nm + r" = \[(.*?)\]\s*: list Z", flat)
         if not m:
             return None, out
         res[nm] = ids(m.group(1))
@@ -235,6 +249,13 @@ def delivery_of(ck, c):
 
 def size_of(c):
     return len(json.dumps([c["otlp"], c["zip"]]))
+
+
+def slim(c):
+    """a case without its bulky observations (a replay needs the input only)"""
+    if size_of(c) < 200000:
+        return c
+    return {k: c.get(k) for k in ("id", "class", "fmt", "otlp", "zip", "sep", "trail_nl", "seg_mode", "seg_seed", "retry", "err", "errmsg", "resp")}
 
 
 def nontrivial(c):
@@ -287,7 +308,7 @@ def run_spans(ck):
                   "case ids: %s; %s" % ([c["id"] for c in changed[:10]], changed[0]["retry_diff"][:300] if changed else ""))
     cases = [c for c in cases if not c.get("panic")]
     byid = {c["id"]: c for c in cases}
-    tot = {"M": [], "V": [], "R": []}
+    tot = {"M": [], "V": [], "R": [], "CM": [], "CV": []}
     # Coq spends ~0.1 s per request elaborating the literal: shards are evaluated by parallel coqc processes
     shard = 100
     heavy = [c for c in cases if size_of(c) > 40000]           # the > 64 KiB / > 1 MiB requests: a shard each
@@ -308,6 +329,24 @@ def run_spans(ck):
                   not mism, "mismatching case ids: %s; legacy-defect diagnosis (case, defect): %s" % (mism[:10], tot["R"][:10]))
     ck.obligation("spec oracle spec_ok accepts every observed request (one row per span, tag rows of span, read back)",
                   not viol, "violating case ids: %s" % viol[:10])
+    # the parser's responses (mid-request flush): model of onSpan's Size bookkeeping vs the observed responses, and the whole-span oracle
+    cm, cv = tot["CM"], tot["CV"]
+    nresp = sum(1 for c in cases if len(c.get("resp") or []) > 1)
+    ck.obligation("correspondence: model SpansChunk.decode_chunked (onSpan sizes, flush above 1 MiB, responses before an error) = the parser's "
+                  "responses on %d requests (%d answered in several responses, %d failing after a flush)" % (
+                      len(cases), nresp, sum(1 for c in cases if flushed_error(c))), not cm, "mismatching case ids: %s" % cm[:10])
+    ck.obligation("spec oracle chunk_spec_ok: every response of an accepted request carries whole spans (its tag rows are those of its trace rows), "
+                  "all responses together one trace row per pushed span", not cv, "violating case ids: %s" % cv[:10])
+    if cv:
+        w = min((byid[i] for i in cv), key=size_of)
+        ck.violation({"property": PID, "kind": "a span is split between two responses (INSERTs) or lost at a mid-request flush",
+                      "case": slim(w), "responses": w.get("resp"), "delivery": delivery_of(ck, w),
+                      "replay": "harness spans --cases <file holding the 'case' object on one line> --out /dev/stdout"})
+    elif cm and not viol and not mism:
+        w = min((byid[i] for i in cm), key=size_of)
+        ck.violation({"property": PID, "kind": "model/implementation disagree on the parser's responses (flush points, rows kept after an error)",
+                      "case": slim(w), "responses": w.get("resp"), "broken": "correspondence SpansChunk.decode_chunked vs builder.go onSpan / doParseSpans"},
+                     no_input=True)
     if viol:
         worst = min((byid[i] for i in viol), key=size_of)
         diag = sorted({QUIRKS[q] for (i, q) in tot["R"] if i == worst["id"]})
